@@ -66,6 +66,7 @@ type Event struct {
 	ID    string  `json:"id,omitempty"`
 	Seq   string  `json:"seq,omitempty"`
 	St    int     `json:"status,omitempty"`
+	N     int     `json:"n,omitempty"` // burst: number of fresh transactions
 }
 
 type Script struct {
@@ -183,6 +184,7 @@ type run struct {
 	tr   *vh.Trace
 	ids  map[*config.PoliciesData]int
 	seen map[string]bool // vacuums that have started; each keeps exactly one timer armed between its passes
+	nburst int
 	extra  int // timers of the fixture that are armed for good (handler mode: the services' far-away periodic timer)
 	drift  []int
 	driftI int
@@ -217,8 +219,16 @@ func (r *run) snap(ev vh.Ev) vh.Ev {
 	}
 	sort.Ints(vs)
 	ps := [][]any{}
+	nburst := 0
 	for txn, v := range pins {
+		if strings.HasPrefix(string(txn), "b#") { // transactions of a burst are counted, not listed
+			nburst++
+			continue
+		}
 		ps = append(ps, []any{string(txn), int(v)})
+	}
+	if nburst > 0 {
+		ev["burstpins"] = nburst
 	}
 	sort.Slice(ps, func(i, j int) bool { return ps[i][0].(string) < ps[j][0].(string) })
 	ev["cur"], ev["vers"], ev["pins"], ev["t"] = int(cur), vs, ps, r.t()
@@ -499,6 +509,21 @@ func (r *run) handlerCall(e Event) {
 	r.tr.Add(ev)
 }
 
+// burst: n fresh transactions are seen for the first time at this instant (scale: size limits of the anchors map and
+// of the vacuum's backlog).  Counted, not recorded one by one.
+func (r *run) burst(n int) {
+	cur := r.fx.Accessor.GetCurrentPoliciesData()
+	same := 0
+	for i := 0; i < n; i++ {
+		r.nburst++
+		if r.fx.Accessor.GetTxnPoliciesData(config.TxnID(fmt.Sprintf("b#%d", r.nburst))) == cur {
+			same++
+		}
+	}
+	r.afterOp()
+	r.tr.Add(r.snap(vh.Ev{"ev": "burst", "n": n, "current": same}))
+}
+
 func (r *run) exec(e Event) {
 	switch e.Ev {
 	case "lookup":
@@ -513,6 +538,8 @@ func (r *run) exec(e Event) {
 		r.gapUpdate(e)
 	case "overlap":
 		r.overlap(e)
+	case "burst":
+		r.burst(e.N)
 	case "hreq", "hres":
 		r.handlerCall(e)
 	default:
